@@ -141,11 +141,40 @@ def u_prog(p):
     return [30] + list(p['cfg']) + [p['style'], len(p['items'])] + u_items(p['items']) + list(p['rest'])
 
 
+def zero_pad(b):
+    """the same text with some decimal literals written with leading zeros (007 is 7, not octal): numbers outside
+    comments that do not continue a word; every third literal is left alone, the others get one or two zeros"""
+    out, i, n, k, in_comment = [], 0, len(b), 0, False
+    def wordch(c):
+        return (48 <= c <= 57) or (65 <= c <= 90) or (97 <= c <= 122) or c == 95 or c == 46
+    while i < n:
+        c = b[i]
+        if c == 10:
+            in_comment = False
+        elif c == 59:
+            in_comment = True
+        if not in_comment and 48 <= c <= 57 and (i == 0 or not wordch(b[i - 1])):
+            j = i
+            while j < n and 48 <= b[j] <= 57:
+                j += 1
+            if j == n or not wordch(b[j]):
+                out += [48] * (k % 3)
+                k += 1
+            out += b[i:j]
+            i = j
+            continue
+        out.append(c)
+        i += 1
+    return out
+
+
 class AsmPlan(Plan):
     two_stage = True
     tie = ASM_TIE
     timeout_ms = 8000
     check_meta = True
+
+    pad_numbers = False
 
     def concrete(self, ints, spec):
         cfg = ints[1:9]
@@ -154,6 +183,12 @@ class AsmPlan(Plan):
             r = find(spec, tag)
             if r is not None:
                 out.append(' '.join(str(x) for x in [10] + cfg + r[1:]))
+        if self.pad_numbers:
+            r = find(spec, 60)
+            if r is not None:
+                padded = zero_pad(r[1:])
+                if padded != r[1:]:
+                    out.append(' '.join(str(x) for x in [10] + cfg + padded))
         return out
 
     def judge(self, ints, spec, idx, conc, impl):
@@ -257,10 +292,11 @@ SIGNS, DIVS, EQUS, ASSERTS, FORS, ILLEGAL88, BIGM = 1, 2, 4, 8, 16, 32, 64
 
 class C03(AsmPlan):
     pid = 'C03'
+    pad_numbers = True
     tie_name = 'CompileWarrior on rendered programs: gmars vs the extracted lexer/scanner/expander/parser/compiler model'
     rule = ('abstract programs (labels, EQU names incl. forward uses and textual substitution, predefined constants, omitted modes / modifiers / second operands, ORG / END, name / author) '
             'generated by construction, rendered by the extracted renderer under a random style (letter case, blanks and tabs, blank and comment lines, colon suffixes, labels on their own line, naming scheme, EQU placement), '
-            'both dialects, core sizes 80 / 8000 / 8192 / 55440 / 2^33+9; expected result = extracted Meaning; non-trivial = the program assembles')
+            'both dialects, core sizes 80 / 8000 / 8192 / 55440 / 2^33+9; each program additionally with its decimal literals written with leading zeros; expected result = extracted Meaning; non-trivial = the program assembles')
 
     def gens(self, tier):
         k = {'quick': 1, 'search': 1}.get(tier, 25)
@@ -566,7 +602,7 @@ class C10(C05):
     codes = {50, 51, 53, 54, 55}
     base_kind = 11
     tie_name = 'ParseLoadFile on canonical and corrupted load files: gmars vs the extracted Load model'
-    rule = ('canonical load files printed by the extracted printer, then corrupted: deleted / duplicated / transposed fields, out-of-range and negative numbers, unknown mnemonics, directives in odd places, '
+    rule = ('canonical load files printed by the extracted printer, then corrupted: deleted / duplicated / transposed fields, out-of-range and negative numbers, unknown mnemonics, another addressing mode in one place, directives in odd places (also a bare ORG n / END n without instructions), '
             'truncation at every kind of position, CR-LF, missing final newline; both dialects, several core sizes; checked on gmars: no panic, no hang, and the extracted checker on every accepted result: '
             'entry point inside the code, fields < M, legal \'88 instructions, and number of instructions = number of significant lines before the end marker (nothing skipped silently); non-trivial = the file is accepted')
     base_gens = [('warriors', 500, [2]), ('warriors', 500, [0])]
@@ -583,17 +619,25 @@ class C10(C05):
             for _ in range(3):
                 lines.append([11] + cfg + list(self.corrupt(rng, t)))
         for h in (b'MOV $ 0, $ 1\nORG -1\n', b'MOV $ 0, $ 1\nEND -1\n', b'ORG 1\nMOV.I $ 0, $ 1\n', b'ORG 0\nMOV.I $ 0, $ 1', b'MOV $ 0, $ 1\nEND 0', b'', b'\n', b';x', b'ORG 0\n',
-                  b'ORG 0\nMOV.I $ 0 $ 1\n', b'ORG 0\nMOV.I $ 99999999999999999999, $ 1\n', b'ORG 0\nMOV.I $ -1, $ -8001\n', b'MOV # 0, # 1\n', b'END\nMOV $ 0, $ 1\n'):
+                  b'ORG 0\nMOV.I $ 0 $ 1\n', b'ORG 0\nMOV.I $ 99999999999999999999, $ 1\n', b'ORG 0\nMOV.I $ -1, $ -8001\n', b'MOV # 0, # 1\n', b'END\nMOV $ 0, $ 1\n',
+                  b'ORG 1\n', b'ORG 3\n', b'END 2\n', b';x\nORG 5\n', b'ORG 1\nEND\n', b'ORG 7',
+                  b'MOV $ 2, > -1\n', b'MOV > 2, $ 1\n', b'DAT # 0, > 1\n', b'JMP * 1, $ 0\n', b'MOV { 1, } 2\n', b'ADD # 1, } 2\n', b'CMP < 1, > 2\n', b'DJN @ 1, * 2\n'):
             for mode in (0, 2):
                 lines.append([11, mode, 8000, 8000, 80000, 8000, 8000, 100, 100] + list(h))
         return [' '.join(str(x) for x in l) for l in lines]
 
     def corrupt(self, rng, t):
         ls = t.split(b'\n')
-        k = rng.randint(0, 9)
+        k = rng.randint(0, 10)
         i = rng.randint(0, max(0, len(ls) - 1))
         f = ls[i].split()
-        if k == 0 and f:
+        if k == 10:
+            # another addressing mode in one place: the other rule set's modes in an otherwise well-formed line
+            pos = [j for j, c in enumerate(ls[i]) if c in b'#$@<>*{}']
+            if pos:
+                j = rng.choice(pos)
+                ls[i] = ls[i][:j] + bytes([rng.choice(b'#$@<>*{}')]) + ls[i][j + 1:]
+        elif k == 0 and f:
             del f[rng.randint(0, len(f) - 1)]
             ls[i] = b' '.join(f)
         elif k == 1 and f:
